@@ -30,6 +30,21 @@ def extra_facts(ctx, leg):
         p = os.path.join(d, 'alias_%d.c' % k)
         open(p, 'w').write('\n'.join(lines) + '\n')
         srcs.append(p)
+    # the same alias macros with every other public header included first: a legacy name must designate the same
+    # field whatever else the translation unit uses (pairs that do not compile at all are C20's business)
+    from .c20 import headers as all_headers
+    combos = []
+    for k, (hdr, als) in enumerate(sorted(byhdr.items())):
+        for j, other in enumerate(all_headers()):
+            if other == hdr:
+                continue
+            lines = ['#include <stddef.h>', '#include "%s"' % other, '#include "%s"' % hdr, 'typedef unsigned long long verif_u64;']
+            for a in als:
+                # no #ifdef here: with another header first the name may have become something that is not a macro
+                lines.append('const verif_u64 verif_alias2_%d_%d_%s = (verif_u64)(%s);' % (k, j, a['macro'], a['macro']))
+            p = os.path.join(d, 'alias2_%d_%d.c' % (k, j))
+            open(p, 'w').write('\n'.join(lines) + '\n')
+            combos.append((p, other, hdr))
     for k, l in enumerate(leg['layout']):
         lines = ['#include <stddef.h>'] + ['#include "%s"' % h for h in l['headers']]
         lines.append('const unsigned long long verif_layout_%d = (unsigned long long)(%s);' % (k, l['expr']))
@@ -52,6 +67,27 @@ def extra_facts(ctx, leg):
         for name, g in m.globals.items():
             if name.startswith('verif_') and g.init is not None:
                 facts[name] = (g.init[1] & ((1 << 64) - 1)) if g.init[0] == 'c' else 0
+    # combos: compiled in parallel, failures ignored
+    from concurrent.futures import ThreadPoolExecutor
+
+    def one(c):
+        p, other, hdr = c
+        try:
+            bcs = build.compile_units([p], os.path.join(d, 'bc2'), target=ctx.target, std=std, debug=False)
+        except build.BuildError:
+            return None
+        ll = bcs[0][:-3] + '.ll'
+        build.link_ll(bcs, ll)
+        m = irparse.parse_module(open(ll).read(), ll)
+        out = {}
+        for name, g in m.globals.items():
+            if name.startswith('verif_alias2_') and g.init is not None:
+                out[name] = ((g.init[1] & ((1 << 64) - 1)) if g.init[0] == 'c' else 0, other, hdr)
+        return out
+    with ThreadPoolExecutor(8) as ex:
+        for r in ex.map(one, combos):
+            if r:
+                facts.update(r)
     return facts, errors
 
 
@@ -264,6 +300,28 @@ def run(ctx, tier, res, tag=''):
             hit = [x['enum'] for x in f['fields'] if ctx.enum_value(x['enum']) == got]
             res.violation('alias:%s' % a['macro'], '%s: legacy name %s evaluates to %d (%s) but must designate %s = %d (field %s)'
                           % (where, a['macro'], got, ', '.join(hit) or 'no field', wname, want, a['field']))
+        else:
+            res.ok()
+    # aliases in combination with every other header
+    bymacro = {a['macro']: a for a in leg['aliases']}
+    for name, v in sorted(xf.items()):
+        if not name.startswith('verif_alias2_') or not isinstance(v, tuple):
+            continue
+        val, other, hdr = v
+        macro = name.split('_', 4)[4]
+        a = bymacro.get(macro)
+        if a is None:
+            continue
+        f = ctx.formats[a['format']]
+        if a['field'] is None:
+            want = facts.get('verif_max_' + a['format'])
+        else:
+            want = ctx.enum_value([x for x in f['fields'] if x['name'] == a['field']][0]['enum'])
+        res.count('alias macros compared with another header included first')
+        if val != want:
+            res.violation('alias-after:%s:%s' % (os.path.basename(other), macro),
+                          'include/%s: legacy name %s evaluates to %d instead of %d when include/%s is included first: it no longer designates field %s'
+                          % (hdr, macro, val, want, other, a['field']))
         else:
             res.ok()
     res.sample({'alias': 'AVTP_AAF_FIELD_CHAN_PER_FRAME', 'evaluates_to': xf.get('verif_alias_AVTP_AAF_FIELD_CHAN_PER_FRAME'),
